@@ -369,7 +369,16 @@ fn near_tie_text(d: &mut D, single: bool) -> (String, &'static str) {
 
 pub fn gen_misc(d: &mut D) -> MiscCase {
     let esc = |s: &str| format!("{:?}", s);
-    match d.below(11) {
+    match d.below(12) {
+        // long quoted values no target accepts, with a multi-byte character at an arbitrary byte offset (whatever the
+        // error message quotes of the value must be cut at a character boundary): a spanned error, never a panic
+        11 => {
+            let target = *d.pick(&["u8", "i64", "NonZeroU8", "f32", "f64", "bool", "char"]);
+            let head = d.pick(&["7", "1", "0", "x", " "]).repeat(d.range(1, 530));
+            let unit = *d.pick(&["\u{e9}", "\u{2192}", "\u{1F600}"]);
+            let text = format!("{}{}{}", head, unit.repeat(d.range(1, 3)), d.pick(&["", "7", "77"]));
+            MiscCase { src: format!("v = {}", esc(&text)), kind: "long-rejected-string".into(), expect: None, lenient_alt: None, target: target.into() }
+        }
         10 => {
             let target = *d.pick(&["f32", "f32", "f64"]);
             let (t, class) = near_tie_text(d, target == "f32");
